@@ -605,15 +605,19 @@ func noCarriedStateRules(c *core.Ctx, r *core.Report, rule string) {
 		if !p.Registered {
 			continue
 		}
-		rl := propertiesLoop(p)
-		if rl == nil {
+		it := propertiesIteration(c, p)
+		if it == nil {
 			continue // decided by the loop-shape rule of the processor
 		}
+		rl := it.rl
 		n++
 		cons := "no-carried-state:" + p.Name()
 		bad := ""
 		// registers carried round the loop
 		for _, in := range rl.Header.Instrs {
+			if it.visit != nil {
+				break // the loop of an iterator helper: it hands the visitor nothing but the element
+			}
 			if phi, ok := in.(*ssa.Phi); ok && phi != rl.Index {
 				if isErrorType(phi.Type()) {
 					continue // an error remembered for the end of the loop is decided by the error-flow rules
@@ -622,8 +626,12 @@ func noCarriedStateRules(c *core.Ctx, r *core.Report, rule string) {
 			}
 		}
 		// cells that outlive an iteration
-		for _, b := range p.Props.Blocks {
-			if rl.Loop.Blocks[b] {
+		loopFn := p.Props
+		if it.visit == nil {
+			loopFn = it.fn
+		}
+		for _, b := range loopFn.Blocks {
+			if it.visit == nil && rl.Loop.Blocks[b] {
 				continue
 			}
 			for _, in := range b.Instrs {
@@ -650,7 +658,7 @@ func noCarriedStateRules(c *core.Ctx, r *core.Report, rule string) {
 								accs = append(accs, acc{x, false, via})
 							}
 						case *ssa.MakeClosure:
-							if !inLoop(x) {
+							if !inLoop(x) && !(it.visit != nil && x.Fn == ssa.Value(it.visit)) {
 								continue
 							}
 							fn := x.Fn.(*ssa.Function)
@@ -666,7 +674,12 @@ func noCarriedStateRules(c *core.Ctx, r *core.Report, rule string) {
 						}
 					}
 				}
-				collect(al, func(i ssa.Instruction) bool { return rl.Loop.Blocks[i.Block()] }, nil)
+				if it.visit != nil {
+					// the per-property body is the visitor literal: nothing of the method itself runs per property
+					collect(al, func(i ssa.Instruction) bool { return false }, nil)
+				} else {
+					collect(al, func(i ssa.Instruction) bool { return rl.Loop.Blocks[i.Block()] }, nil)
+				}
 				var stores, loads []acc
 				for _, a := range accs {
 					if a.store {
@@ -739,9 +752,7 @@ func sorterSiteRules(c *core.Ctx, r *core.Report, rule string) {
 	if bs, _ := findBootstrap(c); bs != nil {
 		mark(bs.fn, "bootstrap table")
 	}
-	for _, s := range lowestReaching(c, "app",
-		func(com *ssa.CallCommon) bool { return core.IsInvoke(com, ro.FRefresh) },
-		func(com *ssa.CallCommon) bool { return core.IsInvoke(com, ro.RunnerRun) }) {
+	for _, s := range startRoutines(c) {
 		mark(s, "run table")
 	}
 	for _, T := range c.Implementors(c.Iface("configure", "Configure")) {
